@@ -26,7 +26,7 @@ HALVES = ('sync', 'async')
 # the dispatcher the document is served by: sync, async serving coroutines, async serving plain functions
 SERVERS = ((False, None, 'server'), (True, None, 'aserver'), (True, False, 'aserver_plain'))
 SINGLE_NOTATIONS = ['call', 'dunder', 'proxy', 'send', 'notify']
-BATCH_NOTATIONS = ['b_add', 'b_call', 'b_proxy', 'b_getitem']
+BATCH_NOTATIONS = ['b_add', 'b_call', 'b_proxy', 'b_getitem', 'b_queue_getitem']
 
 
 def spec(method, args=None, kwargs=None, notify=False):
@@ -47,7 +47,9 @@ def spec_params(s):
 ARGSETS = [((), {}), ((1,), {}), ((1, 2), {}), ((), {'a': 1}), ((), {'a': 1, 'b': 'x'}), (([1, {'k': None}], 's'), {}),
            ((), {'a': [1.5, None, {'z': []}]}), ((0,), {}), ((None,), {}), (('',), {}), ((), {'b': 2}),
            # a single positional argument that is itself a JSON object: stays positional in every notation
-           (({'b': 1},), {}), (({'a': 1, 'zz': 2},), {}), (({},), {}), (([],), {})]
+           (({'b': 1},), {}), (({'a': 1, 'zz': 2},), {}), (({},), {}), (([],), {}),
+           # named arguments whose value is None are arguments like any other
+           ((), {'a': None}), ((), {'a': 1, 'b': None})]
 IDGENS = [{'k': 'sequential', 'start': '1', 'step': '1'}, {'k': 'sequential', 'start': '0', 'step': '1'},
           {'k': 'sequential', 'start': '-3', 'step': '7'}, {'k': 'sequential', 'start': '10', 'step': '-1'},
           {'k': 'sequential', 'start': '5', 'step': '0'},
@@ -133,7 +135,7 @@ def loop_case(notation, items, client=None, idgen=None):
     else:
         reqs, k = [], 0
         for it in items:
-            if notation == 'b_getitem':
+            if notation == 'b_getitem' or (notation == 'b_queue_getitem' and it is not items[0]):
                 params = dec(it['args']) if it.get('args') else []
             else:
                 params = call_params(it)
@@ -159,7 +161,7 @@ def generate(tier, rng):
             for (args, kwargs) in ARGSETS:
                 yield build_case(notation, [spec(rng.choice(methods), args, kwargs, notify=(notation == 'notify'))], g)
             yield build_case(notation, [spec('m', (1,), {'a': 2})], g)         # positional and named together: refused
-        for notation in BATCH_NOTATIONS:
+        for notation in BATCH_NOTATIONS[:4]:
             for n in range(0, 5 if thorough else 4):
                 for _ in range((12 if thorough else 3) if n else 1):
                     items = []
@@ -176,6 +178,7 @@ def generate(tier, rng):
              ('ctxm', (5,), {}), ('ctxm', (), {'ctx': 1}), ('fail_rpc', (), {}), ('fail_unreg', (), {}), ('fail_zero', (), {}),
              ('fail_exc', (), {}), ('nosuch', (), {}), ('sub.null', (), {}), ('view.vm', (3,), {}),
              ('fail_reserved', (), {}), ('fail_reworded', (), {}), ('fail_null_data', (), {}),
+             ('echo', (), {'a': None}), ('echo', (), {'a': 1, 'b': None}),
              ('echo', ({'b': 1},), {}), ('echo', ({'a': 7},), {}), ('echo', ({},), {}), ('deco_xy', (1,), {}), ('deco_a', (), {'a': 2})]
     clients = [{'strict': True}, {'strict': False}, {'strict': True, 'error_cls': U.errclass_json(U.ClientBaseError)}]
     for (m, args, kwargs) in calls:
@@ -199,6 +202,10 @@ def generate(tier, rng):
                 its = [dict(it, notify=False) if notation == 'b_getitem' else it for it in items]
                 if notation == 'b_getitem':
                     its = [spec(it['method'], spec_params(it) if isinstance(spec_params(it), list) else ()) for it in its]
+                if notation == 'b_queue_getitem':
+                    if len(items) < 2:
+                        continue
+                    its = [items[0]] + [spec(it['method'], spec_params(it) if isinstance(spec_params(it), list) else ()) for it in items[1:]]
                 yield loop_case(notation, its, rng.choice(clients), gens[r % len(gens)] if n > 1 else rng.choice(gens))
     # batches made only of notifications
     for n in (1, 2, 3):
@@ -297,6 +304,13 @@ def invoke(client, notation, items, is_async):
     b = client.batch
     if notation == 'b_getitem':
         return run(b[[(it['method'], *(dec(it['args']) if it.get('args') else [])) for it in items]])
+    if notation == 'b_queue_getitem':
+        # something queued on the batch first (add / notify), the rest in bracket notation on the same batch object
+        it0 = items[0]
+        a0 = dec(it0['args']) if it0.get('args') else []
+        k0 = dec(it0['kwargs']) if it0.get('kwargs') else {}
+        (b.notify if it0.get('notify') else b.add)(it0['method'], *a0, **k0)
+        return run(b[[(it['method'], *(dec(it['args']) if it.get('args') else [])) for it in items[1:]]])
     for it in items:
         a = dec(it['args']) if it.get('args') else []
         kw = dec(it['kwargs']) if it.get('kwargs') else {}
